@@ -694,6 +694,8 @@ impl CertificateParams {
 				|| self.name_constraints.iter().any(|c| !c.is_empty())
 				|| matches!(self.is_ca, IsCa::ExplicitNoCa)
 				|| matches!(self.is_ca, IsCa::Ca(_))
+				|| !self.key_usages.is_empty()
+				|| !self.crl_distribution_points.is_empty()
 				|| !self.custom_extensions.is_empty();
 			if !should_write_exts {
 				return Ok(());
